@@ -61,6 +61,17 @@ def build_program(P, pdir, conf, drv_obj):
         return None, "compiling the generated C++ of %s with the embedding driver failed rc=%s: %s" % (dl, rc, e[-1500:])
     return exe, None
 
+def exposed_relations(P, pdir):
+    """names registered by the generated class (addRelation calls of `souffle -g`), or None."""
+    os.makedirs(pdir, exist_ok=True)
+    dl = os.path.join(pdir, P["id"] + ".dl"); cpp = os.path.join(pdir, P["id"] + ".cpp")
+    with open(dl, "w") as f:
+        f.write(render.program(P))
+    rc, o, e = sh([build.SOUFFLE, "-j1", "-g", cpp, dl], timeout=300, cwd=pdir)
+    if rc != 0 or not os.path.exists(cpp):
+        return None
+    return set(re.findall(r'^addRelation\("([^"]*)"', open(cpp).read(), re.M))
+
 # ---- values <-> driver text -------------------------------------------------------------------------------------
 def esc(s):
     return s.replace("\\", "\\\\").replace("\t", "\\t").replace("\n", "\\n")
@@ -503,11 +514,19 @@ def run(tier, replay_path=None):
     gseed = seed() * 1000 + sum(map(ord, PID))
     gen_ps = gen.programs(gseed, 6 if quick else 40)
     if not quick:
-        for P in gen.programs(gseed + 1, 12, features=[f for f in gen.ALL_FEATURES if f not in ("rec", "adt")], n_idb=(2, 3)):
+        # generator programs as API programs: only those whose program object exposes exactly the declared relations
+        # (a relation introduced by the compiler, e.g. +disconnected0 or __agg_single, keeps state Api.tla does not model)
+        skipped = 0
+        for P in gen.programs(gseed + 1, 60, features=[f for f in gen.ALL_FEATURES if f not in ("rec", "adt", "agg")], n_idb=(2, 3)):
             Q = apigen.from_generator(P, gseed)
-            if Q is not None and len(api_ps) < 10:
-                Q["id"] = "api_" + Q["id"]
+            if Q is None or len(api_ps) >= 8:
+                continue
+            Q["id"] = "api_" + Q["id"]
+            if exposed_relations(Q, os.path.join(wd, "probe_" + Q["id"])) == {r["name"] for r in Q["rels"]}:
                 api_ps.append(Q)
+            else:
+                skipped += 1
+        res.count("generator_api_programs_skipped_compiler_relations", skipped)
     drv_obj = build_driver(conf, wd)
     pool = cf.ThreadPoolExecutor(max(2, min(NCPU, 12)))
     futs = {P["id"]: pool.submit(build_program, P, os.path.join(wd, P["id"]), conf, drv_obj) for P in api_ps + gen_ps}
